@@ -69,7 +69,7 @@ def walkRepost (e : Env) (s : St) (lh : Int) (dest : Nat) (prune : Bool) : List 
   let ut := undoTodo e s.pointer dest
   let r1 := walk.undoAll e prune ut.1 s0
   let r2 := walk.todoAll e lh ut.2 r1.1
-  if r1.2 && r2.2 then repostSteps e lh s.pool r2.1 else []
+  if r1.2 && r2.2 then repostSteps e lh (repostList e s) r2.1 else []
 
 /-- **the state after each atomic batch of `walk`**, in the order the batches are written -/
 def walkTrace (e : Env) (s : St) (lh : Int) (dest : Nat) (prune : Bool) : List St :=
@@ -151,7 +151,7 @@ theorem walk_eq (e : Env) (s : St) (lh : Int) (dest : Nat) (prune : Bool) :
        if !r1.2 then (r1.1, false) else
        let r2 := walk.todoAll e lh ut.2 r1.1
        if !r2.2 then (r2.1, false) else
-       (s.pool.foldl (fun st i => (doTx e st lh i).1) r2.1, true)) := by rfl
+       ((repostList e s).foldl (fun st i => (doTx e st lh i).1) r2.1, true)) := by rfl
 
 /-- **the last element of the trace is the state `walk` returns** — whether the walk succeeds or stops at a failing
 step: in the latter case the trace ends with the last completed batch, which is exactly the state `walk` reports
